@@ -504,8 +504,10 @@ impl Prop for C05 {
         };
         for alg in ALGS {
             for &(pre, post) in &places {
-                for ow in wins(wmax) {
-                    for nw in wins(wmax) {
+                // the widest windows only in the middle of the text
+                let wm = if (pre, post) == (50, 51) { wmax } else { 2 };
+                for ow in wins(wm) {
+                    for nw in wins(wm) {
                         if pre + post < 101 && ow.len().max(nw.len()) < 2 {
                             continue; // neither side would exceed 100 lines
                         }
